@@ -188,15 +188,18 @@ Definition esm_resolve (fs : fsmap) (k : ikind) (user : list str) (pkgdir : path
   | None => None
   end.
 
-(* nearest directory (dir itself included) that has a package.json *)
+(* nearest directory (dir itself included) that has a package.json; since the
+   fix 6e6e7fa the search stops at a directory named "node_modules" (which is
+   itself never a package scope) *)
 Fixpoint nearest_pkg (fs : fsmap) (fuel : nat) (dir : path) : option (path * pkginfo) :=
   match pkg_of fs dir with
-  | Some pk => Some (dir, pk)
+  | Some pk => if str_eqb (base_name dir) node_modules_s then None else Some (dir, pk)
   | None =>
-      match fuel, dir with
-      | S f, _ :: _ => nearest_pkg fs f (parent dir)
-      | _, _ => None
-      end
+      if str_eqb (base_name dir) node_modules_s then None
+      else match fuel, dir with
+           | S f, _ :: _ => nearest_pkg fs f (parent dir)
+           | _, _ => None
+           end
   end.
 
 Definition name_and_subpath (spec : str) : str * str * bool :=
